@@ -25,8 +25,11 @@ MANIFEST = dict(
          "theta0=90); (6) object-state discipline: every attribute written by a conversion call is a lazy cache behind a "
          "set-before-compute flag or scratch written before every read, and every attribute that is modified in place denotes an object "
          "owned by the instance (origin analysis: never a module-level object or an element of one, a class-level attribute value or a "
-         "parameter default, directly, through a local, a helper's return value or a helper that modifies its parameter); (7) root finder: target/guess/solver roles, RA-wrapped "
-         "longitude residual, tolerance forwarded; (8) jacobian = central differences with wrapped RA difference; the RA-difference "
+         "parameter default, directly, through a local, a helper's return value or a helper that modifies its parameter); (7) root finder: RA-wrapped "
+         "longitude residual; _findxy is followed through its helpers in the term domain with the call of scipy's solver (found through imports, aliases and "
+         "cached lookups) kept as a term of everything it can see: the callable is the residual method, the start vector is the closed-form inverse of the same "
+         "target with find=False, the target buffer holds (lon, lat) when the solver runs, the tolerance is forwarded, the solution's components are returned on "
+         "every path; for array input the loop over all points is run for one generic index and must equal the scalar solve of that point; (8) jacobian = central differences with wrapped RA difference; the RA-difference "
          "wrap returns input + 360 k in [-180, 180] for every finite scalar or array element and returns for nan/+-inf (case-partitioned "
          "interval x congruence analysis of the function and the helpers it calls; the loop-shape rules decide only where that analysis "
          "cannot); inverse-fit term enumeration agrees between design matrix and coefficient packing, and the fit drivers hand the "
@@ -45,6 +48,12 @@ PROJS = ("-TAN", "-TPV", "-TAN-SIP")
 MODEL_OF = {"-TAN": "scamp", "-TPV": "scamp", "-TAN-SIP": "sip"}
 HASMODEL = "self.distort['name'] != 'none'"
 N = 4  # coefficient matrices are (order+1) x (order+1) with order 3
+
+
+def _mf(repo, name):
+    """the module-level function `name` of esutil.wcsutil: defined there, or imported into it from another module of the package"""
+    full = repo.resolve_name(repo.module(MOD), name)
+    return repo.func(full if repo.has(full) else MOD + "." + name)
 
 
 def M(name, k=N):
@@ -82,6 +91,96 @@ class _Bound:
         return "_Bound(%s)" % self.name
 
 
+class _Gen:
+    """an iterable over the points of the array input(s) that is not a literal sequence: range(n) for the number of points n, an array
+    term, zip / enumerate of such.  at(i) is the value the loop target receives for the point with index i."""
+
+    def __init__(self, at):
+        self.at = at
+
+
+NPTS = sp.Symbol("NPTS", integer=True, positive=True)          # number of points of a (non-empty) array input
+IDX = sp.Symbol("IDX", integer=True, nonnegative=True)          # index of the generic point of a loop over all points
+FORALL = sp.Function("FORALL")                                   # FORALL(IDX, t): the array whose element IDX is t, for every point
+
+# uninterpreted functions of the term domain that are not element-wise maps of their arguments
+_NOT_ELEMENTWISE = set(symx.REDUCE.values()) | {"AT", "SLICE", "SIZE", "LEN", "ARANGE", "SEARCHSORTED", "ARGSORT", "DOT", "INNER", "SOLVE", "MATMUL", "DIAG",
+                                                "OUTER", "MESHGRID", "LINSPACE", "UNIQUE", "LEXSORT", "INTERP", "TRAPZ", "ARGMAX", "ARGMIN", "FORALL", "INT"}
+
+# positional parameters of the scipy root finders (scipy.optimize documentation)
+_SOLVER_SIG = {"scipy.optimize.fsolve": ("func", "x0", "args", "fprime", "full_output", "col_deriv", "xtol", "maxfev", "band", "epsfcn", "factor", "diag"),
+               "scipy.optimize.leastsq": ("func", "x0", "args", "Dfun", "full_output", "col_deriv", "ftol", "xtol", "gtol", "maxfev", "epsfcn", "factor", "diag"),
+               "scipy.optimize.root": ("fun", "x0", "args", "method", "jac", "tol", "callback", "options")}
+
+
+def _denotes(repo, mod, fi, e, seen=frozenset()):
+    """the set of fully qualified names the expression `e` (a callee) may denote, or None when that is not known.  Followed: imports
+    (also function-local ones), local variables with plain assignments, module-level variables including those that functions assign
+    after `global` (a lazily filled cache: the initial None is not a callable and is left out), and calls without arguments of package
+    functions (what they return)."""
+    if isinstance(e, ast.Call):
+        d = dotted_name(e.func)
+        if e.args or e.keywords or not d:
+            return None
+        full = repo.resolve_name(mod, d)
+        if not repo.has(full) or full in seen:
+            return None
+        tgt = repo.func(full)
+        rets = [x for x in walk_no_nested(tgt.node) if isinstance(x, ast.Return)]
+        if not rets:
+            return None
+        out = set()
+        for x in rets:
+            o = _denotes(repo, tgt.module, tgt, x.value, seen | {full}) if x.value is not None else None
+            if o is None:
+                return None
+            out |= o
+        return out
+    d = dotted_name(e)
+    if not d:
+        return None
+    if "." not in d:
+        key = ("var", mod.name, fi.qualname if fi is not None else None, d)
+        if key in seen:
+            return set()
+        vals = None
+        globs = set()
+        if fi is not None:
+            globs = {n for x in walk_no_nested(fi.node) if isinstance(x, ast.Global) for n in x.names}
+            if d in [p.lstrip("*") for p in fi.params]:
+                return None
+            if d not in globs:
+                stores = [x for x in walk_no_nested(fi.node) if isinstance(x, ast.Name) and isinstance(x.ctx, ast.Store) and x.id == d]
+                plain = [x.value for x in walk_no_nested(fi.node) if isinstance(x, ast.Assign) and len(x.targets) == 1 and isinstance(x.targets[0], ast.Name) and x.targets[0].id == d]
+                if stores:
+                    if len(plain) != len(stores):
+                        return None
+                    vals = (fi, plain)
+        if vals is None:
+            writers = [(f, x.value) for f in repo.funcs.values() if f.module is mod and any(isinstance(g, ast.Global) and d in g.names for g in walk_no_nested(f.node))
+                       for x in walk_no_nested(f.node) if isinstance(x, ast.Assign) and any(isinstance(t, ast.Name) and t.id == d for t in x.targets)]
+            if d in mod.consts or writers:
+                top = [(None, st.value) for st in mod.tree.body if isinstance(st, ast.Assign) and any(isinstance(t, ast.Name) and t.id == d for t in st.targets)]
+                out = set()
+                for f, v in top + writers:
+                    if isinstance(v, ast.Constant) and v.value is None:
+                        continue
+                    o = _denotes(repo, mod, f, v, seen | {key})
+                    if o is None:
+                        return None
+                    out |= o
+                return out or None
+        else:
+            out = set()
+            for v in vals[1]:
+                o = _denotes(repo, mod, vals[0], v, seen | {key})
+                if o is None:
+                    return None
+                out |= o
+            return out
+    return {repo.resolve_name(mod, d)}
+
+
 class _Env(symx.Env):
     def exec_body(self, stmts, cond):
         sym = not (cond is sp.true or cond == sp.true)
@@ -93,6 +192,181 @@ class _Env(symx.Env):
             if sym:
                 self.se._symdepth -= 1
 
+    # -- loops over all points of an array input ------------------------------------------------------------------------------
+    def _arrayish(self, v):
+        ai = getattr(self.se, "array_inputs", None)
+        return bool(ai) and isinstance(v, sp.Expr) and bool(v.free_symbols & ai)
+
+    def _elem(self, v, i):
+        """element i of the array term v: element-wise terms are mapped onto the elements of the array inputs"""
+        ai = self.se.array_inputs
+        for sub in sp.preorder_traversal(v):
+            if isinstance(sub, sp.core.function.AppliedUndef) and sub.func.__name__ in _NOT_ELEMENTWISE:
+                return sp.Function("AT")(v, i)
+        return v.xreplace({s: sp.Function("AT")(s, i) for s in ai})
+
+    def _as_gen(self, v):
+        if isinstance(v, _Gen):
+            return v
+        if self._arrayish(v):
+            return _Gen(lambda i, v=v: self._elem(v, i))
+        return None
+
+    def exec_for(self, st, cond):
+        if not getattr(self.se, "array_inputs", None):
+            return super().exec_for(st, cond)
+        it = self.ev(st.iter)
+        gen = self._as_gen(it)
+        if gen is None:
+            # evaluated once: hand the value to the shared loop code
+            self.vars["$iter"] = it
+            st2 = ast.copy_location(ast.For(target=st.target, iter=ast.copy_location(ast.Name(id="$iter", ctx=ast.Load()), st.iter), body=st.body, orelse=st.orelse), st)
+            try:
+                return super().exec_for(st2, cond)
+            except symx.Unsupported as e:
+                raise symx.Unsupported(str(e).replace("`$iter`", "`%s`" % norm(st.iter)))
+            finally:
+                self.vars.pop("$iter", None)
+        if st.orelse or getattr(self.se, "_genloop", None) is not None or not (cond is sp.true or cond == sp.true):
+            raise symx.Unsupported("symx: loop over all points with else / nested / under an undecided condition at %s" % self.where(st))
+        body_ = symx._continue_to_else(st.body)
+        tnames = {x.id for x in ast.walk(st.target) if isinstance(x, ast.Name)}
+
+        def snap(vs):
+            return {k: (list(v) if isinstance(v, list) else v) for k, v in vs.items()}
+
+        def body():
+            self.se._genloop = self.se._symdepth
+            try:
+                self.assign(st.target, gen.at(IDX), st)
+                rets = self.exec_body(body_, cond)
+            except symx._ContinueLoop:
+                raise symx.Unsupported("symx: continue in a loop over all points at %s" % self.where(st))
+            finally:
+                self.se._genloop = None
+            if rets:
+                raise symx.Unsupported("symx: return inside a loop over all points at %s" % self.where(st))
+
+        def changed(before):
+            out = []
+            for k, v in self.vars.items():
+                if k in tnames:
+                    continue
+                if k not in before:
+                    continue          # first assigned in the body: not carried into an iteration
+                b = before[k]
+                if isinstance(v, list) and isinstance(b, list):
+                    if len(v) != len(b) or any(not symx._same(x, y) for x, y in zip(v, b)):
+                        out.append(k)
+                elif not symx._same(v, b):
+                    out.append(k)
+            return out
+
+        # dry run: which variables does an iteration change?  those are unknown (left by the previous iteration) when an iteration starts
+        before = snap(self.vars)
+        keep_vars, keep_elem = self.vars, dict(self.elem)
+        logs = [(l_, len(l_)) for l_ in (self.se.calls, getattr(self.se, "solver_log", None), self.se.notes, self.se.issues) if l_ is not None]
+        self.vars = snap(self.vars)
+        try:
+            body()
+            carried = changed(before)
+        finally:
+            # in-place changes of shared lists are undone by restoring the snapshot element by element
+            for k, v in keep_vars.items():
+                if isinstance(v, list) and isinstance(before.get(k), list):
+                    v[:] = before[k]
+            self.vars, self.elem = keep_vars, keep_elem
+            for l_, n_ in logs:
+                del l_[n_:]
+        for k in carried:
+            v = self.vars[k]
+            tag = "".join(ch if ch.isalnum() else "_" for ch in k)
+            if isinstance(v, list) and all(symx._is_expr(x) for x in v):
+                v[:] = [sp.Symbol("CARRIED_%s_%d" % (tag, j)) for j in range(len(v))]
+            elif symx._is_expr(v):
+                self.vars[k] = sp.Symbol("CARRIED_%s" % tag)
+            else:
+                raise symx.Unsupported("symx: `%s` is carried from one iteration to the next in the loop over all points at %s" % (k, self.where(st)))
+        elem0 = dict(self.elem)
+        body()
+        # arrays filled point by point
+        for (arr, idx), v in list(self.elem.items()):
+            if (arr, idx) in elem0 and symx._same(elem0[(arr, idx)], v):
+                continue
+            if idx != str(IDX) or arr not in self.vars or not symx._is_expr(v):
+                raise symx.Unsupported("symx: store `%s[%s]` in the loop over all points at %s" % (arr, idx, self.where(st)))
+            del self.elem[(arr, idx)]
+            self.vars[arr] = FORALL(IDX, symx._as_expr(v))
+        # what an iteration changes holds the values of the last point afterwards
+        for k in carried:
+            v = self.vars.get(k)
+            tag = "".join(ch if ch.isalnum() else "_" for ch in k)
+            if isinstance(v, list):
+                v[:] = [sp.Symbol("LASTPOINT_%s_%d" % (tag, j)) for j in range(len(v))]
+            elif isinstance(v, sp.Basic) and v.func is FORALL:
+                continue
+            else:
+                self.vars[k] = sp.Symbol("LASTPOINT_%s" % tag)
+        for k in tnames:
+            self.vars.pop(k, None)
+        return []
+
+    # -- the root finder --------------------------------------------------------------------------------------------------------
+    def _solver(self, c, full):
+        sig = _SOLVER_SIG.get(full)
+        if sig is None or any(isinstance(a, ast.Starred) for a in c.args) or any(k.arg is None for k in c.keywords) or len(c.args) > len(sig):
+            raise symx.Unsupported("symx: cannot bind the arguments of `%s` at %s" % (norm(c)[:60], self.where(c)))
+        bound = {p: self.ev(a) for p, a in zip(sig, c.args)}
+        for k in c.keywords:
+            if k.arg in bound:
+                raise symx.Unsupported("symx: cannot bind `%s` of `%s` at %s" % (k.arg, norm(c)[:60], self.where(c)))
+            bound[k.arg] = self.ev(k.value)
+        scratch = getattr(self.se, "scratch", ())
+        state = {k: tuple(v) for k, v in sorted(self.vars.items()) if k.startswith("self.") and (isinstance(v, list) or (isinstance(v, tuple) and k in scratch))
+                 and all(symx._is_expr(x) for x in v)}
+
+        def t(x):
+            if isinstance(x, _Bound):
+                return sp.Symbol("METHOD_" + x.name)
+            if isinstance(x, bool):
+                return sp.Symbol("TRUE" if x else "FALSE")
+            if isinstance(x, (list, tuple)):
+                return sp.Function("SEQ")(*[t(y) for y in x])
+            if symx._is_expr(x):
+                return symx._as_expr(x)
+            return sp.Symbol("UNKNOWN_%d_%d" % (getattr(c, "lineno", 0), getattr(c, "col_offset", 0)))
+        fn, x0 = bound.get(sig[0]), bound.get("x0")
+        if isinstance(x0, list):
+            x0 = tuple(x0)
+        rec = dict(solver=full, func=fn, x0=x0, kw={k: v for k, v in bound.items() if k not in (sig[0], "x0")}, state=state,
+                   top=getattr(self.se, "_symdepth", 0) == 0, where=self.where(c))
+        self.se.solver_log.append(rec)
+        # the solution is a function of everything the solver and the residual function can see: callable, start, options, scratch state
+        return sp.Function("ROOT_" + full.rsplit(".", 1)[1])(t(fn), t(x0), *([sp.Function("KW_" + k)(t(v)) for k, v in sorted(rec["kw"].items())]
+                                                                               + [sp.Function("STATE_" + k[5:])(*[symx._as_expr(x) for x in v]) for k, v in state.items()]))
+
+    def _bind(self, c, tgt, meth):
+        """{parameter: value} of a call of a package function / method of the analysed class (positional, keyword and default alike)"""
+        params = [p for p in tgt.params if not p.startswith("*")]
+        if meth and not any(isinstance(d_, ast.Name) and d_.id == "staticmethod" for d_ in tgt.node.decorator_list):
+            params = params[1:]
+        if any(isinstance(a, ast.Starred) for a in c.args) or any(k.arg is None for k in c.keywords) or len(c.args) > len(params):
+            raise symx.Unsupported("symx: cannot bind the arguments of `%s` at %s" % (norm(c)[:60], self.where(c)))
+        bound = {}
+        for p, a in zip(params, c.args):
+            bound[p] = self.ev(a)
+        for k in c.keywords:
+            if k.arg in bound or k.arg not in params:
+                raise symx.Unsupported("symx: cannot bind `%s` of `%s` at %s" % (k.arg, norm(c)[:60], self.where(c)))
+            bound[k.arg] = self.ev(k.value)
+        given = set(bound)
+        for p in params:
+            if p not in bound:
+                if p not in tgt.defaults:
+                    raise symx.Unsupported("symx: missing argument `%s` of `%s` at %s" % (p, norm(c)[:60], self.where(c)))
+                bound[p] = type(self)(self.se, tgt, tgt.module, {}, {}).ev(tgt.defaults[p])
+        return params, bound, given
+
     def _method(self, node):
         """name of the method of the analysed class that `self.<name>` denotes, else None"""
         if isinstance(node, ast.Attribute) and isinstance(node.value, ast.Name) and node.value.id == "self" and self.fi is not None and self.fi.cls \
@@ -103,7 +377,65 @@ class _Env(symx.Env):
     def ev(self, e, stmt_level=False):
         if isinstance(e, ast.Attribute) and self._method(e):
             return _Bound(e.attr)
+        if isinstance(e, ast.JoinedStr):
+            # f"{prefix}_{i}": the text, when every part is a string or an integer (as `prefix + "_" + str(i)` would be)
+            parts = []
+            for v in e.values:
+                if isinstance(v, ast.Constant) and isinstance(v.value, str):
+                    parts.append(v.value)
+                    continue
+                x = None
+                if isinstance(v, ast.FormattedValue) and v.format_spec is None and v.conversion in (-1, 115):
+                    try:
+                        x = self.ev(v.value)
+                    except symx.Unsupported:
+                        x = None
+                if isinstance(x, str):
+                    parts.append(x)
+                elif isinstance(x, (int, sp.Integer)) and not isinstance(x, bool):
+                    parts.append(str(int(x)))
+                else:
+                    return symx.Opaque("fstring")
+            return "".join(parts)
+        if isinstance(e, (ast.Attribute, ast.Name)) and getattr(self.se, "solver_log", None) is not None and norm(e) not in self.vars:
+            d = dotted_name(e)
+            if d and d.split(".")[0] not in self.vars and d.split(".")[0] in self.mod.imports:
+                full = self.se.repo.resolve_name(self.mod, d)
+                if full in _SOLVER_SIG:
+                    return symx.Opaque(full)          # the library function as a value (an alias of it is followed by _denotes)
+        if isinstance(e, ast.DictComp):
+            pairs = self._comprehension(ast.copy_location(ast.ListComp(elt=ast.copy_location(ast.Tuple(elts=[e.key, e.value], ctx=ast.Load()), e), generators=e.generators), e))
+            if pairs is None:
+                return symx.Opaque("comprehension")
+            try:
+                return dict(pairs)
+            except TypeError:
+                return symx.Opaque("comprehension")
+        if isinstance(e, ast.Attribute) and e.attr == "size" and getattr(self.se, "array_inputs", None) and norm(e) not in self.vars:
+            if self._arrayish(self.ev(e.value)):
+                return NPTS          # every array built element-wise from the inputs has as many elements as they have points
+        if isinstance(e, ast.Attribute) and e.attr == "ndim" and getattr(self.se, "input_kind", None) and norm(e) not in self.vars:
+            k = self._kind_of(e.value)
+            if k is not None:
+                return sp.Integer(0 if k == "scalar" else 1)
         return super().ev(e, stmt_level)
+
+    def _kind_of(self, node):
+        """'scalar' / 'array' when the expression is built from the coordinate inputs of this run, else None"""
+        ins = getattr(self.se, "coord_inputs", None)
+        if not ins:
+            return None
+        try:
+            v = self.ev(node)
+        except symx.Unsupported:
+            return None
+        if isinstance(v, sp.Expr) and v.free_symbols & ins and not any(
+                isinstance(s_, sp.core.function.AppliedUndef) and s_.func.__name__ in _NOT_ELEMENTWISE for s_ in sp.preorder_traversal(v)):
+            return self.se.input_kind
+        return None
+
+    def _is_self(self, node):
+        return isinstance(node, ast.Name) and node.id == "self" and isinstance(self.vars.get("self", symx.Opaque("self")), symx.Opaque)
 
     def _target(self, c):
         """(FuncInfo, is-method) of a call to a package function or to a method of the analysed class, else (None, False)"""
@@ -139,6 +471,75 @@ class _Env(symx.Env):
                 if len(c.args) == 2:
                     return self.ev(c.args[1])
                 raise symx.Unsupported("symx: next() on an exhausted iterator at %s" % self.where(c))
+            if f.id == "setattr" and len(c.args) == 3 and not c.keywords:
+                nm_ = self.ev(c.args[1])
+                if self._is_self(c.args[0]) and isinstance(nm_, str):
+                    self.vars["self." + nm_] = self.ev(c.args[2])          # setattr(self, "name", v)  ==  self.name = v
+                    return None
+                raise symx.Unsupported("symx: `%s` at %s" % (norm(c)[:60], self.where(c)))
+            if f.id == "getattr" and len(c.args) in (2, 3) and not c.keywords:
+                nm_ = self.ev(c.args[1])
+                if self._is_self(c.args[0]) and isinstance(nm_, str):
+                    if "self." + nm_ in self.vars:
+                        return self.vars["self." + nm_]
+                    if self.fi is not None and self.fi.cls and self.se.repo.has("%s.%s.%s" % (self.fi.module.name, self.fi.cls, nm_)):
+                        return _Bound(nm_)
+                raise symx.Unsupported("symx: `%s` at %s" % (norm(c)[:60], self.where(c)))
+            if getattr(self.se, "array_inputs", None) and f.id in ("range", "zip", "enumerate", "len") and not c.keywords and c.args:
+                vals = [self.ev(a) for a in c.args]
+                if f.id == "len" and len(vals) == 1 and self._arrayish(vals[0]):
+                    return NPTS
+                if f.id == "range" and len(vals) == 1 and vals[0] == NPTS:
+                    return _Gen(lambda i: i)
+                gens = [self._as_gen(v) for v in vals]
+                if f.id == "zip" and all(g is not None for g in gens):
+                    return _Gen(lambda i, gens=gens: tuple(g.at(i) for g in gens))
+                if f.id == "enumerate" and len(vals) == 1 and gens[0] is not None:
+                    return _Gen(lambda i, g=gens[0]: (i, g.at(i)))
+                if any(g is not None for g in gens):
+                    raise symx.Unsupported("symx: `%s` over the points of the input at %s" % (norm(c)[:60], self.where(c)))
+                # literal arguments: the shared code (the arguments are evaluated again there; they are plain values)
+        d0 = dotted_name(f)
+        full0 = self.se.repo.resolve_name(self.mod, d0) if d0 else ""
+        if full0 == "operator.index" and len(c.args) == 1 and not c.keywords:
+            x = self.ev(c.args[0])
+            if (isinstance(x, int) and not isinstance(x, bool)) or (isinstance(x, sp.Basic) and x.is_integer):
+                return x          # the integer itself; anything else raises TypeError in the analysed code
+        if full0 in ("numpy.isscalar", "numpy.ndim") and len(c.args) == 1 and not c.keywords and getattr(self.se, "input_kind", None):
+            k = self._kind_of(c.args[0])
+            if k is not None:
+                return (k == "scalar") if full0 == "numpy.isscalar" else sp.Integer(0 if k == "scalar" else 1)
+        if isinstance(f, ast.Attribute) and f.attr in ("items", "values", "update") and not isinstance(f.value, ast.Constant):
+            # dict methods on tables the evaluator holds as dicts
+            try:
+                rv = self.ev(f.value)
+            except symx.Unsupported:
+                rv = None
+            if isinstance(rv, dict):
+                if f.attr == "items" and not c.args and not c.keywords:
+                    return [(k_, v_) for k_, v_ in rv.items()]
+                if f.attr == "values" and not c.args and not c.keywords:
+                    return list(rv.values())
+                if f.attr == "update" and len(c.args) <= 1:
+                    new = {}
+                    if c.args:
+                        a = self.ev(c.args[0])
+                        if isinstance(a, dict):
+                            new.update(a)
+                        elif isinstance(a, (list, tuple)) and all(isinstance(p_, tuple) and len(p_) == 2 for p_ in a):
+                            new.update(dict(a))
+                        else:
+                            raise symx.Unsupported("symx: `%s` at %s" % (norm(c)[:60], self.where(c)))
+                    for k in c.keywords:
+                        if k.arg is None:
+                            raise symx.Unsupported("symx: `%s` at %s" % (norm(c)[:60], self.where(c)))
+                        new[k.arg] = self.ev(k.value)
+                    rv.update(new)
+                    return None
+        if getattr(self.se, "solver_log", None) is not None:
+            den = _denotes(self.se.repo, self.mod, self.fi, f)
+            if den and len(den) == 1 and next(iter(den)) in _SOLVER_SIG:
+                return self._solver(c, next(iter(den)))
         # a call through a value that denotes a method of the object: extractors[name](...), fn = self.m; fn(...)
         if isinstance(f, (ast.Subscript, ast.IfExp)) or (isinstance(f, ast.Name) and isinstance(self.vars.get(f.id), _Bound)):
             v = self.ev(f)
@@ -148,28 +549,30 @@ class _Env(symx.Env):
                 ast.fix_missing_locations(c2)
                 return self.call(c2, stmt_level)
         summaries = getattr(self.se, "summaries", None)
-        if summaries:
-            tgt, meth = self._target(c)
-            if tgt is not None and tgt.qualname in summaries:
-                params = [p for p in tgt.params if not p.startswith("*")]
-                if meth and not any(isinstance(d_, ast.Name) and d_.id == "staticmethod" for d_ in tgt.node.decorator_list):
-                    params = params[1:]
-                if any(isinstance(a, ast.Starred) for a in c.args) or any(k.arg is None for k in c.keywords) or len(c.args) > len(params):
-                    raise symx.Unsupported("symx: cannot bind the arguments of `%s` at %s" % (norm(c)[:60], self.where(c)))
-                bound = {}
-                for p, a in zip(params, c.args):
-                    bound[p] = self.ev(a)
-                for k in c.keywords:
-                    if k.arg in bound or k.arg not in params:
-                        raise symx.Unsupported("symx: cannot bind `%s` of `%s` at %s" % (k.arg, norm(c)[:60], self.where(c)))
-                    bound[k.arg] = self.ev(k.value)
-                for p in params:
-                    if p not in bound:
-                        if p not in tgt.defaults:
-                            raise symx.Unsupported("symx: missing argument `%s` of `%s` at %s" % (p, norm(c)[:60], self.where(c)))
-                        bound[p] = type(self)(self.se, tgt, tgt.module, {}, {}).ev(tgt.defaults[p])
-                self.se.calls.append((tgt.qualname, bound, getattr(self.se, "_symdepth", 0) == 0))
-                return summaries[tgt.qualname](bound)
+        tgt, meth = self._target(c) if (summaries or self.se.opaque) else (None, False)
+        if tgt is not None and summaries and tgt.qualname in summaries:
+            params, bound, _ = self._bind(c, tgt, meth)
+            self.se.calls.append((tgt.qualname, bound, getattr(self.se, "_symdepth", 0) == 0))
+            return summaries[tgt.qualname](bound)
+        if tgt is not None and meth and tgt.qualname in self.se.opaque:
+            # a method kept as a function symbol: one term per meaning, however the call is spelled -- required arguments in the
+            # callee's parameter order, optional ones only where they differ from the callee's default, as KW_<name>(value)
+            try:
+                params, bound, _ = self._bind(c, tgt, meth)
+            except symx.Unsupported:
+                return super().call(c, stmt_level)
+            vals = []
+            for p in params:
+                v = bound[p]
+                if p in tgt.defaults:
+                    dv = type(self)(self.se, tgt, tgt.module, {}, {}).ev(tgt.defaults[p])
+                    if v is dv or (type(v) is type(dv) and symx._same(v, dv)) or (symx._is_expr(v) and symx._is_expr(dv) and symx._same(symx._as_expr(v), symx._as_expr(dv))):
+                        continue
+                    if symx._is_expr(v) or isinstance(v, bool) or symx._is_matrix(v):
+                        vals.append((1, sp.Function("KW_" + p)(symx._opaque_arg(v))))
+                elif symx._is_expr(v) or symx._is_matrix(v):
+                    vals.append((0, symx._opaque_arg(v)))
+            return sp.Function(tgt.name)(*([v for k_, v in vals if k_ == 0] + [v for k_, v in vals if k_ == 1]))
         return super().call(c, stmt_level)
 
     def assign(self, t, v, st):
@@ -206,6 +609,11 @@ class _SE(symx.SymEval):
         self.summaries = {}
         self.calls = []
         self._symdepth = 0
+        self._genloop = None
+        self.solver_log = None        # a list: calls of the scipy root finders are recorded and become ROOT_<solver>(...) terms
+        self.input_kind = None        # 'scalar' / 'array': what isscalar / ndim say about the coordinate inputs of this run
+        self.coord_inputs = set()     # the symbols that stand for the coordinate inputs
+        self.array_inputs = set()     # those of them that are arrays (loops over their points are run for one generic point)
 
     def _with_env(self, fn, *a, **kw):
         old = symx.Env
@@ -218,8 +626,53 @@ class _SE(symx.SymEval):
     def run(self, *a, **kw):
         return self._with_env(super().run, *a, **kw)
 
-    def module_const(self, *a, **kw):
-        return self._with_env(super().module_const, *a, **kw)
+    def module_const(self, mod, name, depth=0):
+        """as symx.SymEval.module_const (a table filled by later module-level statements is replayed in source order), and the
+        replay also knows `table.update(...)` statements"""
+        key = (mod.name, name)
+        if key in self._const_cache:
+            return self._const_cache[key]
+        if name not in mod.consts or depth > 6:
+            return None
+        self._const_cache[key] = None
+        env = _Env(self, None, mod, {}, {})
+        try:
+            v = env.ev(mod.consts[name])
+        except symx.Unsupported:
+            v = None
+        if isinstance(v, dict):
+            started = False
+            self._const_cache[key] = v
+            for st in mod.tree.body:
+                if isinstance(st, ast.Assign) and len(st.targets) == 1 and isinstance(st.targets[0], ast.Name):
+                    if st.targets[0].id == name:
+                        started = st.value is mod.consts[name]
+                        continue
+                    if started:
+                        try:
+                            env.vars[st.targets[0].id] = env.ev(st.value)
+                        except symx.Unsupported:
+                            env.vars.pop(st.targets[0].id, None)
+                    continue
+                if not started:
+                    continue
+                root = None
+                if isinstance(st, ast.Assign) and isinstance(st.targets[0], ast.Subscript):
+                    root = st.targets[0]
+                    while isinstance(root, ast.Subscript):
+                        root = root.value
+                try:
+                    if root is not None and isinstance(root, ast.Name) and root.id == name:
+                        env.assign(st.targets[0], env.ev(st.value), st)
+                    elif isinstance(st, ast.For) and any(isinstance(x, ast.Assign) and isinstance(x.targets[0], ast.Subscript) and norm(x.targets[0].value) == name for x in ast.walk(st)):
+                        env.exec_for(st, sp.true)
+                    elif isinstance(st, ast.Expr) and isinstance(st.value, ast.Call) and isinstance(st.value.func, ast.Attribute) and st.value.func.attr == "update" \
+                            and norm(st.value.func.value) == name:
+                        env.call(st.value, True)
+                except (symx.Unsupported, KeyError, TypeError):
+                    pass
+        self._const_cache[key] = v
+        return v
 
 
 # rules that keep their verdict however the code is laid out (decided by term equality, effect analysis or dominance over
@@ -237,6 +690,8 @@ def run(chk):
     for q in ("image2sky", "sky2image", "get_jacobian", "Distort", "ApplyCDMatrix", "image2sph", "sph2image", "Rotate", "_rotate",
               "CreateRotationMatrix", "GetPole", "ExtractPVCoeffs", "ExtractSIPCoeffs", "ExtractDistortionModel", "ExtractFromWCS",
               "_findxy", "_findxy_one", "_lonlatdiff", "__init__"):
+        if q == "_findxy_one" and not repo.has(W + q):
+            continue          # a private stage of _findxy: the root-finder rules follow _findxy through whatever helpers it has
         chk.analysed_unit(repo.func(W + q).qualname)
     unbound = defassign(chk, repo)
     chains(chk, repo, unbound)
@@ -613,20 +1068,6 @@ def tangent(chk, repo):
         chk.ob("R10.5", "sph2image::returns-pair", False, fi.where(), "got %r" % (r,))
     eq = all(_arms_equal(a, b) for a, b in zip(res[True], res[False])) if ok and isinstance(res[True], tuple) else False
     chk.ob("R10.7", "sph2image::scalar-and-array-arms-agree", eq, fi.where(), "the scalar arm and the array arm denote the same terms")
-    # _findxy: the array arm applies the scalar solver element by element with matched indices
-    fi = repo.func(W + "_findxy")
-    calls = [c for c in walk_no_nested(fi.node) if isinstance(c, ast.Call) and dotted_name(c.func) == "self._findxy_one"]
-    ok = len(calls) == 2
-    if ok:
-        sc = [c for c in calls if all(isinstance(a, ast.Name) for a in c.args[:2])]
-        ar = [c for c in calls if all(isinstance(a, ast.Subscript) for a in c.args[:2])]
-        ok = len(sc) == 1 and len(ar) == 1 and [norm(a) for a in sc[0].args[:2]] == fi.params[1:3]
-        if ok:
-            a, b = ar[0].args[:2]
-            ok = [norm(a.value), norm(b.value)] == fi.params[1:3] and norm(a.slice) == norm(b.slice)
-            ok = ok and all(kwarg(c, "xtol") is not None and norm(kwarg(c, "xtol")) == "xtol" for c in calls)
-    chk.ob("R10.7", "_findxy::array-arm-is-elementwise-scalar-arm", ok, fi.where(),
-           "array input solves each (lon[i], lat[i]) with the same index and the same tolerance as the scalar arm")
 
 
 def _fold_sites(chk, fi, repo=None):
@@ -641,8 +1082,8 @@ def _fold_sites(chk, fi, repo=None):
             d = dotted_name(c.func)
             if d and d.startswith("self.") and repo.has(W + d[5:]):
                 fns.append(repo.func(W + d[5:]))
-            elif d and repo.has(MOD + "." + d):
-                fns.append(repo.func(MOD + "." + d))
+            elif d and repo.has(repo.resolve_name(repo.module(MOD), d)):
+                fns.append(repo.func(repo.resolve_name(repo.module(MOD), d)))
     sites = []
     for f in fns:
         cfg = cfg_of(f)
@@ -792,7 +1233,7 @@ def coeffs(chk, repo):
     se = _SE(repo, inline_depth=6)
     se.assume["text:a[ix, iy] != 0.0"] = True
     fi = repo.func(W + "ExtractPVCoeffs")
-    ap2d = repo.func(MOD + ".Apply2DPolynomial")
+    ap2d = _mf(repo, "Apply2DPolynomial")
     chk.analysed_unit(ap2d.qualname)
     for prefix, axis in (("pv1", 1), ("pv2", 2), ("pvi1", 1), ("pvi2", 2)):
         syms = {k: sp.Symbol("%s_%d" % (prefix, k)) for k in range(12)}
@@ -1614,67 +2055,147 @@ def ownership(chk, repo):
 # ---------------------------------------------------------------------------
 # R10.9 root finder
 # ---------------------------------------------------------------------------
+def _scratch(repo):
+    """{self.<attr>: number of components} for the small buffers the constructor allocates (np.zeros(n) / empty / ones with a literal n)"""
+    init = repo.func(W + "__init__")
+    out = {}
+    for x in walk_no_nested(init.node):
+        if isinstance(x, ast.Assign) and isinstance(x.value, ast.Call) and call_name(x.value) in ("zeros", "empty", "ones") and x.value.args:
+            r = _attr_root(x.targets[0]) if isinstance(x.targets[0], ast.Attribute) else None
+            nval = const_value(x.value.args[0])
+            if r is not None and isinstance(nval, int) and not isinstance(nval, bool) and 0 < nval <= 8:
+                out["self." + r] = nval
+    return out
+
+
+def _pix(b):
+    return tuple(sp.Function("pix_%d" % i)(symx._as_expr(b["longitude"]), symx._as_expr(b["latitude"]), _flag(b["distort"]), _flag(b["find"])) for i in (0, 1))
+
+
+def _findxy_run(repo, kind, tol):
+    """_findxy(lon, lat, xtol) in the term domain for scalar or array input, whatever helpers it is divided into: the closed-form
+    conversion it starts from is summarised as pix_i(lon, lat, distort, find), a call of a scipy root finder is recorded (callable,
+    start vector, options, the scratch buffers of the object at that moment) and its result is one term ROOT_<solver>(all of that).
+    The scratch buffers hold unknown values left by earlier calls when the run starts.  -> (result, recorded solver calls, summarised calls)"""
+    fi = repo.func(W + "_findxy")
+    lonp, latp = fi.params[1:3]
+    lo, la = symx.symbols("lon", "lat")
+    se = _mkse(repo, ())
+    se.summaries = {W + "sky2image": _pix}
+    se.solver_log = []
+    se.input_kind = kind
+    se.coord_inputs = {lo, la}
+    se.array_inputs = {lo, la} if kind == "array" else set()
+    st = {k: [sp.Symbol("STALE_%s_%d" % (k[5:], j)) for j in range(n)] for k, n in _scratch(repo).items()}
+    se.scratch = set(st)
+    args = dict(st)
+    args.update({lonp: lo, latp: la})
+    if "xtol" in fi.params:
+        args["xtol"] = tol
+    r = se.run(fi, args, {})
+    return r, se.solver_log, se.calls
+
+
 def rootfind(chk, repo):
     mod = repo.module(MOD)
     fi = repo.func(W + "_lonlatdiff")
     se = _mkse(repo, ("image2sky",))
-    se.opaque.add(MOD + ".wrap_ra_diff")
+    se.opaque.add(_mf(repo, "wrap_ra_diff").qualname)
     xy0, xy1, a0, a1 = symx.symbols("xy0", "xy1", "ans0", "ans1")
     r = se.run(fi, {"xy": (xy0, xy1), "self.lonlat_answer": (a0, a1)}, {})
     I = sp.Function("image2sky")(xy0, xy1)
     i0, i1 = sp.Function("image2sky_0")(*I.args), sp.Function("image2sky_1")(*I.args)
     want = [sp.Function("wrap_ra_diff")(i0 - a0), i1 - a1]
-    ok = isinstance(r, (tuple, list)) and len(r) == 2 and all(symx.equal(a, b)[0] for a, b in zip(r, want))
+    ok = isinstance(r, (tuple, list)) and len(r) == 2 and all(symx._is_expr(a) and symx.equal(a, b)[0] for a, b in zip(r, want))
     chk.ob("R10.9", "_lonlatdiff::residual", bool(ok), fi.where(),
            "residual = (wrap_ra_diff(lon(x,y) - target_lon), lat(x,y) - target_lat): the longitude residual is wrapped so that targets near the RA = 0 seam are reachable (got %s)" % str(r)[:200])
-    fi = repo.func(W + "_findxy_one")
-    cfg = cfg_of(fi)
-    lonp, latp = fi.params[1:3]
-    st = {}
-    for n in cfg.nodes:
-        a = n.ast
-        if n.kind == "stmt" and isinstance(a, ast.Assign) and len(a.targets) == 1 and _attr_root(a.targets[0]) == "lonlat_answer":
-            k_ = _subkey(a.targets[0])
-            if k_ in (":", "0:2", ":2") and isinstance(a.value, (ast.Tuple, ast.List)) and len(a.value.elts) == 2:
-                st["0"], st["1"] = norm(a.value.elts[0]), norm(a.value.elts[1])      # whole-buffer store of (lon, lat)
-            else:
-                st[k_] = norm(a.value)
-    chk.ob("R10.9", "_findxy_one::target-roles", st == {"0": lonp, "1": latp}, fi.where(), "target buffer = (longitude, latitude) in the residual's component order (found %s)" % st)
-    guess = [c for c in walk_no_nested(fi.node) if isinstance(c, ast.Call) and dotted_name(c.func) == "self.sky2image"]
-    ok = len(guess) == 1 and [norm(a) for a in guess[0].args[:2]] == [lonp, latp] and const_value(kwarg(guess[0], "find"), 1) is False
-    chk.ob("R10.9", "_findxy_one::initial-guess", ok, fi.where(), "the starting point is the closed-form inverse sky2image(lon, lat, find=False, ...) of the same target (find=False also ends the recursion)")
-    # the guess must be what is handed to the solver, and the solver must minimise _lonlatdiff with the tolerance forwarded
-    solver_calls = [c for c in walk_no_nested(fi.node) if isinstance(c, ast.Call) and dotted_name(c.func) in ("self._fsolve_xy", "self._lmfind_xy")]
-    ok = len(solver_calls) == 1 and solver_calls[0].args and isinstance(solver_calls[0].args[0], (ast.Name, ast.Attribute))
-    if ok:
-        canon = lambda e: rules.xnorm(e, fi.node)      # a local alias of self.<buffer> and the attribute itself are the same buffer
-        gname = canon(solver_calls[0].args[0])
-        gstores = [n for n in cfg.nodes if n.kind == "stmt" and isinstance(n.ast, ast.Assign) and any(
-            isinstance(t, ast.Subscript) and canon(t.value) == gname for tt in n.ast.targets for t in rules._flat_targets(tt))]
-        ok = len(gstores) == 1 and isinstance(gstores[0].ast.value, ast.Call) and gstores[0].ast.value is guess[0] if guess else False
-        if ok:
-            t = gstores[0].ast.targets[0]
-            ok = (isinstance(t, ast.Tuple) and [norm(e.slice) for e in t.elts] == ["0", "1"]) or (isinstance(t, ast.Subscript) and norm(t.slice) in (":", "0:2", ":2"))
-        ok = ok and (dotted_name(solver_calls[0].func) != "self._fsolve_xy" or (kwarg(solver_calls[0], "xtol") is not None and norm(kwarg(solver_calls[0], "xtol")) == "xtol"))
-    chk.ob("R10.9", "_findxy_one::solver-starts-from-guess", bool(ok), fi.where(), "the solver receives the freshly computed guess (x, y) in order and the caller's xtol")
-    rets = [x for x in walk_no_nested(fi.node) if isinstance(x, ast.Return)]
-    se2 = _mkse(repo, ("sky2image", "_fsolve_xy", "_lmfind_xy"))
-    lo, la = symx.symbols("lo", "la")
+    # The solve for one point, followed from _findxy through whatever helpers it uses (scalar input).  What the rules are about is found
+    # by its meaning: the call of scipy's root finder (through imports, aliases, cached lookups), what it is given, what the object's
+    # target buffer holds at that moment, and what is returned.
+    top = repo.func(W + "_findxy")
+    one = repo.func(W + "_findxy_one") if repo.has(W + "_findxy_one") else top
+    fs = repo.func(W + "_fsolve_xy") if repo.has(W + "_fsolve_xy") else one
+    tol = sp.Symbol("xtol", positive=True)
+    lo, la = symx.symbols("lon", "lat")
+    keys = [("_findxy_one::target-roles", one), ("_findxy_one::initial-guess", one), ("_findxy_one::solver-starts-from-guess", one),
+            ("_findxy_one::returns-solution-components", one), ("_fsolve_xy::solver-call", fs)]
     try:
-        r = se2.run(fi, {lonp: lo, latp: la, "self.lonlat_answer": [sp.Integer(0), sp.Integer(0)], "self.xyguess": [sp.Integer(0), sp.Integer(0)]}, {})
-        ok = isinstance(r, tuple) and len(r) == 2 and all(isinstance(t, sp.Basic) and t.func.__name__ == "AT" and t.args[1] == i for i, t in enumerate(r)) and r[0].args[0] == r[1].args[0]
-    except symx.Unsupported:
-        ok = False
-    chk.ob("R10.9", "_findxy_one::returns-solution-components", bool(ok), fi.where(), "returns (xy[0], xy[1]) of the solver's result")
-    fs = repo.func(W + "_fsolve_xy")
-    calls = [c for c in walk_no_nested(fs.node) if isinstance(c, ast.Call) and call_name(c) == "fsolve"]
-    ok = len(calls) == 1 and len(calls[0].args) >= 2 and norm(calls[0].args[0]) == "self._lonlatdiff" and norm(calls[0].args[1]) == fs.params[1] \
-        and kwarg(calls[0], "xtol") is not None and norm(kwarg(calls[0], "xtol")) == "xtol"
-    chk.ob("R10.9", "_fsolve_xy::solver-call", ok, fs.where(), "scipy.optimize.fsolve(self._lonlatdiff, guess, xtol=xtol)")
+        rs, log, _ = _findxy_run(repo, "scalar", tol)
+        err = None
+    except (symx.Unsupported, KeyError, TypeError, IndexError, AttributeError) as e:
+        rs, log, err = None, [], "the root-finding path is not evaluable in the term domain for scalar input: %s" % e
+    if err is None and len(log) > 1:
+        err = "%d calls of a scipy root finder on the path of one point (%s): which one produces the result is not recognised" % (len(log), ", ".join(l_["where"] for l_ in log))
+    if err is not None:
+        for k_, f_ in keys:
+            chk.ob("R10.9", k_, None, f_.where(), err)
+    elif not log:
+        # positively identified: the value returned for one point does not come out of a root finder at all
+        chk.ob("R10.9", "_findxy_one::returns-solution-components", False, one.where(),
+               "no call of scipy.optimize.fsolve is reached for a scalar (lon, lat): the returned value %s is not the solution of lonlat(x, y) = target" % (str(rs)[:160],))
+    else:
+        rec = log[0]
+        isroot = lambda t, i: isinstance(t, sp.Basic) and getattr(t.func, "__name__", "") == "AT" and len(t.args) == 2 and t.args[1] == i \
+            and getattr(t.args[0].func, "__name__", "").startswith("ROOT_")
+        # target buffer at the time of the solve
+        tgt = rec["state"].get("self.lonlat_answer")
+        chk.ob("R10.9", "_findxy_one::target-roles", (None if tgt is None else (len(tgt) == 2 and tgt[0] == lo and tgt[1] == la)), one.where(),
+               "when the solver runs the target buffer holds (longitude, latitude) of this point in the residual's component order (found %s)" % (tgt,))
+        # start vector
+        x0 = rec["x0"]
+        ispix = lambda t: isinstance(t, sp.Basic) and getattr(t.func, "__name__", "") in ("pix_0", "pix_1") and len(t.args) == 4
+        okx = isinstance(x0, tuple) and len(x0) == 2 and all(ispix(t) for t in x0)
+        ok = okx and all(t.args[0] == lo and t.args[1] == la and t.args[3] == sp.Symbol("FALSE") for t in x0)
+        chk.ob("R10.9", "_findxy_one::initial-guess", (bool(ok) if (okx or (isinstance(x0, tuple) and all(symx._is_expr(t) for t in x0))) else None), one.where(),
+               "the starting point is the closed-form inverse sky2image(lon, lat, find=False, ...) of the same target (find=False also ends the recursion) (start vector %s)" % (str(x0)[:200],))
+        xt = rec["kw"].get("xtol")
+        extra = sorted(k_ for k_, v_ in rec["kw"].items() if k_ not in ("xtol",) and not (k_ == "args" and v_ == ()))
+        ok = okx and x0[0].func.__name__ == "pix_0" and x0[1].func.__name__ == "pix_1" and x0[0].args == x0[1].args and xt == tol
+        chk.ob("R10.9", "_findxy_one::solver-starts-from-guess", (None if (ok and extra) else bool(ok)), one.where(),
+               "the solver receives the freshly computed guess (x, y) in order and the caller's xtol (start vector %s, xtol=%s%s)" % (str(x0)[:160], xt, (", unrecognised options %s" % extra) if extra else ""))
+        ok = isinstance(rs, tuple) and len(rs) == 2 and all(isroot(t, i) for i, t in enumerate(rs)) and rs[0].args[0] == rs[1].args[0] and rec["top"]
+        chk.ob("R10.9", "_findxy_one::returns-solution-components", bool(ok), one.where(),
+               "returns (xy[0], xy[1]) of the solver's result, on every path%s" % ("" if ok else " (got %s%s)" % (str(rs)[:200], "" if rec["top"] else "; the solver runs only under a condition")))
+        fn = rec["func"]
+        if rec["solver"] != "scipy.optimize.fsolve":
+            ok = False          # positively identified: another solver
+        elif not isinstance(fn, _Bound):
+            ok = None           # a callable that is not a method of the object (lambda, closure, partial): not recognised
+        else:
+            ok = fn.name == "_lonlatdiff" and xt == tol
+        chk.ob("R10.9", "_fsolve_xy::solver-call", ok, fs.where(), "scipy.optimize.fsolve(self._lonlatdiff, guess, xtol=xtol) (found %s(%s, ..., xtol=%s))" % (rec["solver"], fn, xt))
+    # array input: every point is solved as a scalar point would be
+    key = "_findxy::array-arm-is-elementwise-scalar-arm"
+    what = "array input solves each (lon[i], lat[i]) as the scalar arm would: same target, same start, same tolerance, results stored at the same index"
+    if rs is None or err is not None:
+        chk.ob("R10.7", key, None, top.where(), what + " -- the scalar arm is not evaluable (%s)" % err)
+    else:
+        try:
+            ra, loga, _ = _findxy_run(repo, "array", tol)
+            erra = None
+        except (symx.Unsupported, KeyError, TypeError, IndexError, AttributeError) as e:
+            ra, erra = None, str(e)
+        if erra is not None or not (isinstance(ra, tuple) and isinstance(rs, tuple) and len(ra) == len(rs) == 2):
+            chk.ob("R10.7", key, None, top.where(), what + " -- the array arm is not evaluable in the term domain (%s)" % (erra or "result %s" % str(ra)[:120]))
+        else:
+            sub = {lo: sp.Function("AT")(lo, IDX), la: sp.Function("AT")(la, IDX)}
+            bad = []
+            unk = False
+            for i, (ga, gs) in enumerate(zip(ra, rs)):
+                if not (isinstance(ga, sp.Basic) and ga.func is FORALL and symx._is_expr(gs)):
+                    unk = True
+                    bad.append("component %d is not filled point by point (%s)" % (i, str(ga)[:100]))
+                    continue
+                got, want_ = ga.args[1], symx._as_expr(gs).xreplace(sub)
+                if got != want_ and not symx.equal(got, want_)[0]:
+                    if any(str(s_).startswith(("CARRIED_", "UNKNOWN_")) for s_ in got.free_symbols):
+                        unk = True
+                    bad.append("element IDX of component %d is %s, the scalar arm gives %s" % (i, str(got)[:240], str(want_)[:240]))
+            chk.ob("R10.7", key, (None if (bad and unk) else not bad), top.where(), what + ("" if not bad else " -- " + "; ".join(bad)))
     tol = mod.consts.get("DEFTOL")
     tv = const_value(tol) if tol is not None else None
-    dflts = [const_value(f.defaults.get("xtol")) if not isinstance(f.defaults.get("xtol"), ast.Name) else f.defaults["xtol"].id
-             for f in (repo.func(W + "sky2image"), repo.func(W + "_findxy"), fi, fs)]
+    chain = [repo.func(W + "sky2image"), top] + [f for f in (one, fs) if f is not top]
+    dflts = [const_value(f.defaults.get("xtol")) if not isinstance(f.defaults.get("xtol"), ast.Name) else f.defaults["xtol"].id for f in chain if "xtol" in f.params]
     chk.ob("R10.9", "DEFTOL", isinstance(tv, float) and 0 < tv <= 1e-8 and all(d == "DEFTOL" for d in dflts), "esutil/wcsutil.py",
            "default root-finding tolerance is the documented 1e-8 or tighter on the whole call chain (DEFTOL = %s, defaults %s)" % (tv, dflts))
 
@@ -1684,28 +2205,38 @@ def rootfind(chk, repo):
 # ---------------------------------------------------------------------------
 def jacobian(chk, repo):
     fi = repo.func(W + "get_jacobian")
-    se = _mkse(repo, ("image2sky",))
-    se.opaque.add(MOD + ".wrap_ra_diff")
     x, y, h = symx.symbols("x", "y", "h")
-    r = se.run(fi, {"x": x, "y": y, "step": h}, {"distort": True})
-    kw = sp.Function("KW_distort")(sp.Symbol("TRUE"))
-
-    def sky(i, a, b):
-        return sp.Function("image2sky_%d" % i)(a, b, kw)
-    wr = sp.Function("wrap_ra_diff")
-    c = -sp.cos(sky(1, x, y) * sp.pi / 180)
-    f = sp.Integer(3600) / (2 * h)
-    want = (f * wr(sky(0, x + h, y) - sky(0, x - h, y)) * c, f * wr(sky(0, x, y + h) - sky(0, x, y - h)) * c,
-            f * (sky(1, x + h, y) - sky(1, x - h, y)), f * (sky(1, x, y + h) - sky(1, x, y - h)))
     names = ("dra_dx", "dra_dy", "ddec_dx", "ddec_dy")
-    ok = isinstance(r, tuple) and len(r) == 4
-    if not ok:
-        chk.ob("R10.10", "get_jacobian::returns-four", False, fi.where(), "got %s" % str(r)[:200])
-        return
-    for nm, got, w in zip(names, r, want):
-        eq, d = symx.equal(got, w)
-        chk.ob("R10.10", "get_jacobian::%s" % nm, eq, fi.where(),
-               "%s = 3600/(2 step) x central difference%s%s" % (nm, " of the wrapped RA difference x (-cos dec)" if nm.startswith("dra") else "", "" if eq else " (differs: %s)" % str(d)[:160]))
+    res = {nm: [] for nm in names}
+    # both values of the distort option: the forward transform is kept as a function symbol whose term carries the option only where it
+    # differs from image2sky's default, so an option that is not forwarded shows up as a different term for one of the two values
+    for distort in (True, False):
+        se = _mkse(repo, ("image2sky",))
+        se.opaque.add(_mf(repo, "wrap_ra_diff").qualname)
+        r = se.run(fi, {"x": x, "y": y, "step": h}, {"distort": distort})
+        i2s = repo.func(W + "image2sky")
+        dflt = const_value(i2s.defaults.get("distort")) if "distort" in i2s.defaults else None
+        kw = () if distort is dflt else (sp.Function("KW_distort")(sp.Symbol("TRUE" if distort else "FALSE")),)
+
+        def sky(i, a, b):
+            return sp.Function("image2sky_%d" % i)(a, b, *kw)
+        wr = sp.Function("wrap_ra_diff")
+        c = -sp.cos(sky(1, x, y) * sp.pi / 180)
+        f = sp.Integer(3600) / (2 * h)
+        want = (f * wr(sky(0, x + h, y) - sky(0, x - h, y)) * c, f * wr(sky(0, x, y + h) - sky(0, x, y - h)) * c,
+                f * (sky(1, x + h, y) - sky(1, x - h, y)), f * (sky(1, x, y + h) - sky(1, x, y - h)))
+        ok = isinstance(r, tuple) and len(r) == 4
+        if not ok:
+            chk.ob("R10.10", "get_jacobian::returns-four", False, fi.where(), "got %s" % str(r)[:200])
+            return
+        for nm, got, w in zip(names, r, want):
+            eq, d = symx.equal(got, w)
+            res[nm].append((distort, eq, d))
+    for nm in names:
+        bad = [(dv, d) for dv, eq, d in res[nm] if not eq]
+        chk.ob("R10.10", "get_jacobian::%s" % nm, not bad, fi.where(),
+               "%s = 3600/(2 step) x central difference%s of image2sky(..., distort=distort), for distort on and off%s"
+               % (nm, " of the wrapped RA difference x (-cos dec)" if nm.startswith("dra") else "", "" if not bad else " (distort=%s differs: %s)" % (bad[0][0], str(bad[0][1])[:160])))
 
 
 # ---------------------------------------------------------------------------
@@ -2146,7 +2677,7 @@ def _wrap_semantics(repo, fi):
 
 
 def wrapdiff(chk, repo):
-    fi = repo.func(MOD + ".wrap_ra_diff")
+    fi = _mf(repo, "wrap_ra_diff")
     chk.analysed_unit(fi.qualname)
     # Decided semantically where the analysis has a transfer function for every construct of the function:
     #  * non-finite input: nan, +inf and -inf are single concrete values with exact transfer functions, so "no case reaches a return" is a
@@ -2222,8 +2753,8 @@ def wrapdiff(chk, repo):
 # ---------------------------------------------------------------------------
 def invfit(chk, repo):
     u, v, xc, yc = symx.symbols("u", "v", "xc", "yc")
-    mk = repo.func(MOD + ".make_amatrix")
-    pk = repo.func(MOD + ".pack_coeffs")
+    mk = _mf(repo, "make_amatrix")
+    pk = _mf(repo, "pack_coeffs")
     chk.analysed_unit(mk.qualname)
     chk.analysed_unit(pk.qualname)
     for const in (True, False):
@@ -2255,7 +2786,7 @@ def invfit(chk, repo):
                     bad.append((k, str(term), pos))
         chk.ob("R10.12", "make_amatrix/pack_coeffs[constant=%s]::term-enumeration-agrees" % const, bool(good), mk.where(),
                "row k of the design matrix is u^i v^j exactly when coefficient k is packed into [i, j] (%d terms)%s" % (n_terms, "" if good else " -- mismatch %s" % bad[:3]))
-    inv = repo.func(MOD + ".invert_for_coeffs")
+    inv = _mf(repo, "invert_for_coeffs")
     se = _SE(repo)
     A, X, Y = symx.symbols("A", "X", "Y")
     r = se.run(inv, {"amatrix": A, "x": X, "y": Y}, {"lsolve": True})
@@ -2263,13 +2794,13 @@ def invfit(chk, repo):
     ok = isinstance(r, tuple) and r == (SO(IN(A, A), IN(A, X)), SO(IN(A, A), IN(A, Y)))
     chk.ob("R10.12", "invert_for_coeffs::normal-equations", ok, inv.where(), "coefficients solve (A A^T) c = A x and (A A^T) c = A y in (x, y) order (got %s)" % str(r)[:160])
     # Invert2DPolynomial: who gets what.  The three stages are summarised (not entered) and the arguments they are bound to are compared
-    i2 = repo.func(MOD + ".Invert2DPolynomial")
+    i2 = _mf(repo, "Invert2DPolynomial")
     px, py, po = symx.symbols("px", "py", "po")
     AM, XC, YC = symx.symbols("AMATRIX", "XCOEFFS", "YCOEFFS")
     PA, PB = M("PACKED_A"), M("PACKED_B")
     for const in (True, False):
         se = _SE(repo)
-        se.summaries = {MOD + ".make_amatrix": lambda b: AM, MOD + ".invert_for_coeffs": lambda b: (XC, YC), MOD + ".pack_coeffs": lambda b: (PA, PB)}
+        se.summaries = {_mf(repo, "make_amatrix").qualname: lambda b: AM, _mf(repo, "invert_for_coeffs").qualname: lambda b: (XC, YC), _mf(repo, "pack_coeffs").qualname: lambda b: (PA, PB)}
         key = "Invert2DPolynomial[constant=%s]::roles" % const
         try:
             r = se.run(i2, {"u": u, "v": v, "x": px, "y": py, "porder": po}, {"pack": True, "constant": const})
@@ -2318,7 +2849,7 @@ def _fit_driver(chk, repo, fi, model):
 
     def pix(b):
         return tuple(sp.Function("pix_%d" % i)(b["longitude"], b["latitude"], _flag(b["distort"]), _flag(b["find"])) for i in (0, 1))
-    GRID, FIT = MOD + ".make_xy_grid", MOD + ".Invert2DPolynomial"
+    GRID, FIT = _mf(repo, "make_xy_grid").qualname, _mf(repo, "Invert2DPolynomial").qualname
     se.summaries = {GRID: lambda b: (gx, gy), FIT: lambda b: (AI, BI), W + "image2sky": sky, W + "sky2image": pix}
     kf, kg = "%s::what-is-fitted" % name, "%s::fit-grid-covers-the-image" % name
     try:
@@ -2378,7 +2909,7 @@ def noalias(chk, repo):
     from vcheck import effects
     from checks.C15 import analyse_with_arrays
     eng = effects.Effects(repo, {})
-    scope = [(W + "Distort", ["x", "y"], [{"inverse": False}, {"inverse": True}]), (MOD + ".Apply2DPolynomial", ["a", "x", "y"], [{}]),
+    scope = [(W + "Distort", ["x", "y"], [{"inverse": False}, {"inverse": True}]), (_mf(repo, "Apply2DPolynomial").qualname, ["a", "x", "y"], [{}]),
              (W + "ApplyCDMatrix", ["x", "y"], [{"inverse": False}, {"inverse": True}]), (W + "image2sph", ["x", "y"], [{}]),
              (W + "sph2image", ["longitude", "latitude"], [{}]), (W + "_rotate", ["longitude", "latitude", "r"], [{}]), (W + "Rotate", ["lon", "lat"], [{}])]
     for q, params, variants in scope:
